@@ -46,6 +46,34 @@ NEEDS = {
  "C20-2": ("KahnSort panics only if Cycles() is non-empty", "a graph whose only cycles are self-loops (Cycles drops singleton components)"),
 }
 
+NEEDS2 = {
+ "C01-3": ("Func.argBuilder merges defaults and call options with append(f.callOpts, opts...) (sequential form)", "default options in a slice with spare capacity shared through `ext := append(common, x)`, and a call on the first function before the other list is used: the second function runs with a value only ever supplied to the first"),
+ "C01-4": ("Func.graph builds input vertices through Value.vertex(), which now carries Value.Value", "BuildFunc(orig.Input(), ...) — a wrapper sharing another function's input set — run before the wrapped function is used with a different supplied value (type-only parameter)"),
+ "C02-3": ("ConverterGen generators are also shown type-only *requirement* vertices", "a generator keyed on the output type; the type exists only as an unnamed parameter. NOT REPORTED: the change only makes a generator produce a converter it did not produce before; every executed function still receives proper arguments and nothing the properties assert is contradicted (generated converters whose trigger is only a requirement lie in the Core/Env gap that DESIGN section 5 leaves unasserted)"),
+ "C02-4": ("NewValueSet keeps the subtype only for type-only values", "a named value with a subtype declared through NewValueSet/BuildFunc: the subtype is lost (reported as a value-set round-trip / built-function difference by C15; inside the label envelope, so C01/C02 are silent by design)"),
+ "C05-3": ("the per-argument graph copy before the matching-name discount is dropped, so -1 weights leak into later searches of the call", "a NamedSubtype value, a same-name same-type requirement without subtype, a type-only requirement of that type resolved afterwards, and a favourable order: panic in ~12% of runs"),
+ "C05-4": ("interface outputs are linked only to concrete implementations", "a requirement of interface type I1 whose only derivation ends in a converter declared to return another interface I2 implementing I1"),
+ "C06-3": ("Dijkstra's visited set is removed (cooperating with the -1 matching-name discount)", "a named argument whose name and type appear with and without subtype and a converter between them: the predecessor map stops being a tree and EdgeToPath never returns"),
+ "C06-4": ("type-only fields of the redefined input struct are named after Type.Name()", "Redefine leaving two type-only inputs of composite (unnamed) types to the caller: reflect.StructOf panics on the duplicate field name"),
+ "C08-3": ("the function returned by Redefine appends onto the caller's option slice (sequential three-step form)", "r1 redefined from a prefix with spare capacity, r2 from the extended list, then r1 is called: r2 (or any later use of the extended list) sees r1's values"),
+ "C08-4": ("the inputsProvided filtering of caller-supplied vertices is removed as redundant", "a supplied Named value whose name matches no parameter, a type-only consumer of that type, and a filter rejecting that type"),
+ "C09-3": ("the planning pass stubs only the explicitly listed converters", "a ConverterGen-generated converter on the plan (forced by FilterInput): Redefine executes it"),
+ "C09-4": ("a FuncOnce provider is not stubbed during planning", "a run-once parameterless converter, not yet memoized, on the plan: Redefine executes and memoizes it"),
+ "C11-3": ("the memoized result is held by value and 'memoized?' is decided by out != nil", "a run-once function without any result (reflect returns a nil slice) used as a target and called again"),
+ "C11-4": ("ValueSet.result unwraps into a local but still allocates the nil-pointer replacement in place", "a run-once converter with a pointer-struct output whose single execution returned nil, used a second time"),
+ "C12-3": ("Converter(...) caches its *Funcs lazily in the closure, one at a time, without a lock", "an option holding several functions whose first-ever application is concurrent"),
+ "C12-4": ("Redefine hoists the input ValueSet out of the generated function (shared per-call state)", "one redefined function called by two goroutines with different input values"),
+ "C13-3": ("the unsatisfied list is built from the target's name/type-keyed maps", "a struct target with two type-only subtyped fields of one Go type, the hopeless one declared first"),
+ "C13-4": ("the reported converter list is de-duplicated by fn.Pointer()", "two converters made by reflect.MakeFunc (BuildFunc, Redefine): they share one code pointer"),
+ "C19-3": ("AddEdgeWeighted returns early when the weight is 'unchanged'", "weight 0 on an absent edge (absent reads as 0)"),
+ "C19-4": ("Remove drops the maps when the graph becomes empty", "a reversed view obtained before the graph is drained to zero vertices, then a further mutation"),
+}
+NEEDS.update(NEEDS2)
+SRC = {}
+for k in NEEDS2:
+    prop, n = k.split("-")
+    SRC[k] = ("/tmp/seed2/%s" % prop, str(int(n) - 2), "second round: asked for changes needing two or three conditions at once")
+
 def parse(path):
     res = {}
     cur = None
@@ -66,7 +94,13 @@ def parse(path):
 
 results = {}
 for f in sys.argv[1:]:
+    off = 0
+    if f.endswith(":+2"):
+        f, off = f[:-3], 2
     for k, v in parse(f).items():
+        if off:
+            pp, nn = k.split("-")
+            k = "%s-%d" % (pp, int(nn) + off)
         if k not in results: results[k] = v
         else:
             if v["confirm"]: results[k]["confirm"] = v["confirm"]
@@ -79,7 +113,14 @@ rows = []
 for key in sorted(NEEDS):
     prop, n = key.split("-")
     src = "/tmp/seed/%s" % prop
+    rnd = "first round"
+    if key in SRC:
+        src, n, rnd = SRC[key]
     if not os.path.exists("%s/patch%s.diff" % (src, n)):
+        # already assembled in an earlier run (the sub-agent's worktree is gone): keep it
+        mp = "%s/%s/meta.json" % (out, key)
+        if os.path.exists(mp):
+            rows.append((key, json.load(open(mp))))
         continue
     d = "%s/%s" % (out, key)
     os.makedirs(d, exist_ok=True)
@@ -93,7 +134,7 @@ for key in sorted(NEEDS):
     pkg = "internal/graph" if "package graph" in open(d + "/demo_test.go.txt").read() else "."
     meta = {
         "id": key, "property": prop, "change": NEEDS[key][0], "needs_to_manifest": NEEDS[key][1],
-        "author": "fresh sub-agent given only the text of %s and a scratch worktree of the library (tree ee0fd03, identical to the current tree except for the refined D9 repair)" % prop,
+        "author": "fresh sub-agent given only the text of %s and a scratch worktree of the library (%s)" % (prop, rnd),
         "demo": {"file": "demo_test.go.txt", "copy_to": "%s/seed_demo_test.go" % pkg},
         "confirmation_by_me": r["confirm"],
         "confirmed": bool(r["confirm"] and r["confirm"]["demo_on_clean_tree_exit"] == 0 and r["confirm"]["suite_with_change_exit"] == 0 and r["confirm"]["demo_with_change_exit"] != 0),
@@ -104,6 +145,7 @@ for key in sorted(NEEDS):
 
 with open(out + "/RESULTS.md", "w") as f:
     f.write("# Seeded property-breaking changes: which checks catch which\n\n")
+    f.write("Ids <prop>-1/-2 are the first round, -3/-4 the second round (agents asked for changes that need two or three conditions at once). ")
     f.write("Each change was written by a fresh sub-agent that saw only the text of one property and a scratch worktree (nothing from /verif). `confirmed` = I re-ran, in my own scratch worktree: the demo passes on the clean tree, the existing suite passes with the change, the demo fails with the change. Checks were run with `./seedeval.sh` (scratch worktree + `VERIF_REPO`), i.e. the registered quick commands against a copy of the library carrying the change.\n\n")
     f.write("| id | change | needs | confirmed | caught by (quick) | run but silent |\n|---|---|---|---|---|---|\n")
     for key, m in rows:
